@@ -131,6 +131,10 @@ class Lifecycle(Scenario):
             taken = [e[3] for e in polls]
             if taken != list(range(len(taken))):
                 return Violation("double-loop", kind, "items-out-of-order", info)
+            for e in polls:
+                if not e[4]:
+                    # an item was taken from the iterable while the source was stopped
+                    return Violation("cycle-after-stop", kind, "item-taken-while-stopped", info)
             vals = [e[3] for e in ins]
             if len(set(vals)) != len(vals):
                 return Violation("double-loop", kind, "item-twice", info)
